@@ -812,6 +812,13 @@ class Model:
 
         return result
 
+    def previous_time(self, t):
+        """The grid point before t: t-dt, normalised to the time grid so that it carries no float noise.
+
+        Used by stocks, whose equation is evaluated at the previous timestep.
+        """
+        return fp.normalize(t - self.dt, self.dt, self.starttime, max(fp.scale(self.starttime), fp.scale(self.dt)))
+
     def add_equation(self, equation, lambda_method):
 
         #TODO Consider making this an internal method.
